@@ -25,8 +25,10 @@ def build_doc(seed):
     doc.text.addElement(text.P(text='first body paragraph'))       # built before the header paragraph further down
     docgen.fill_document(rng, doc)
     doc.meta.addElement(dc.Title(text='T & <t>'))
-    if rng.random() < 0.5: doc.meta.addElement(meta.Generator(text='OtherApp/9'))
-    if rng.random() < 0.5: doc.meta.insertBefore(meta.Generator(text='Older/1'), doc.meta.firstChild)
+    every = seed % 2 == 0                                # every other document has all of it: generators next to each other and apart
+    if every or rng.random() < 0.5: doc.meta.addElement(meta.Generator(text='OtherApp/9'))
+    if every or rng.random() < 0.5: doc.meta.insertBefore(meta.Generator(text='Older/1'), doc.meta.firstChild)
+    if every: doc.meta.addElement(meta.Generator(text='Another/2'))
     pl = style.PageLayout(name='pm1'); doc.automaticstyles.addElement(pl)
     hs = style.Style(name='HP', family='paragraph'); doc.automaticstyles.addElement(hs)
     mp = style.MasterPage(name='Standard', pagelayoutname='pm1'); h = style.Header(); h.addElement(text.P(stylename='HP', text='head')); mp.addElement(h)
